@@ -507,6 +507,7 @@ type Pool struct {
 	mu   sync.Mutex
 	free []any
 	rel  map[any][]int // clock at Put, joined at Get (Put happens-before the Get that returns the object)
+	held map[any]int   // object -> thread that took it and has not put it back (ownership monitor)
 }
 
 func (p *Pool) Get() any {
@@ -525,10 +526,20 @@ func (p *Pool) Get() any {
 			}
 		}
 	}
-	p.mu.Unlock()
 	if x == nil && p.New != nil {
 		x = p.New()
 	}
+	if e != nil && x != nil {
+		// ownership: an object handed out while another thread still holds it is shared by two requests
+		if p.held == nil {
+			p.held = map[any]int{}
+		}
+		if owner, taken := p.held[x]; taken && owner != t.id {
+			e.Races = append(e.Races, Race{Obj: "pooled object handed to two threads at once", T1: owner, T2: t.id, W1: true, W2: true})
+		}
+		p.held[x] = t.id
+	}
+	p.mu.Unlock()
 	return x
 }
 
@@ -540,6 +551,9 @@ func (p *Pool) Put(x any) {
 	p.mu.Lock()
 	p.free = append(p.free, x)
 	if e != nil {
+		if p.held != nil && p.held[x] == t.id {
+			delete(p.held, x)
+		}
 		if p.rel == nil {
 			p.rel = map[any][]int{}
 		}
